@@ -9,11 +9,12 @@ _registered = False
 _TAPE = {"tape": [0], "pos": 0, "moves": []}
 
 
-def set_tape(tape, eager=None):
+def set_tape(tape, eager=None, probe=None):
     _TAPE["tape"] = list(tape) or [0]
     _TAPE["pos"] = 0
     _TAPE["moves"] = []
     _TAPE["eager"] = eager
+    _TAPE["probe"] = probe
 
 
 def moves():
@@ -39,6 +40,8 @@ def ensure_registered():
     def init(s):
         s.known = []
         s.multi = s.params["multi_operator_containers"]
+        s.round = -1
+        s.probed = False
 
     @register_scheduler(key=KEY)
     def sched(s, results, pipelines):
@@ -74,8 +77,66 @@ def ensure_registered():
                         free[k][1] -= ram
                         break
             return sus, asg
+        s.round += 1
+        if _TAPE.get("probe"):
+            # probe policy: admissible work in partial multi-operator containers, suspensions where possible, and from a
+            # drawn round on ONE certainly inadmissible decision: an operator one of whose parents is not completed
+            # (whatever that parent is doing then: pending, assigned, running, suspending or failed)
+            pr = _TAPE["probe"]
+            sus, asg = [], []
+            free = [[p_.avail_cpu_pool, p_.avail_ram_pool] for p_ in s.executor.pools]
+
+            def place(ops, pl, ram):
+                for k, (fc, fr) in enumerate(free):
+                    if fc >= 1 and fr >= ram:
+                        asg.append(Assignment(ops=ops, cpu=1, ram=ram, priority=pl.priority, pool_id=k, pipeline_id=pl.pipeline_id))
+                        free[k][0] -= 1
+                        free[k][1] -= ram
+                        return True
+                return False
+            for p_ in s.executor.pools:
+                for c in p_.active_containers:
+                    if c.can_suspend_container() and _next(2) == 0:
+                        sus.append(Suspend(c.container_id, p_.pool_id))
+            if s.round >= pr["round"] and not s.probed:
+                for pl in s.known:
+                    rs = pl.runtime_status()
+                    cands = [op for op in rs.get_ops(ASSIGNABLE_STATES)
+                             if any(rs.operator_states[q] != OperatorState.COMPLETED for q in op.parents)]
+                    if cands:
+                        busy = [op for op in cands if any(rs.operator_states[q] not in (OperatorState.COMPLETED, OperatorState.PENDING)
+                                                          for q in op.parents)]
+                        if busy and _next(4) != 0:
+                            cands = busy
+                        op = cands[_next(len(cands))]
+                        states = sorted({rs.operator_states[q].value for q in op.parents if rs.operator_states[q] != OperatorState.COMPLETED})
+                        if place([op], pl, pr["probe_ram"]):
+                            s.probed = True
+                            _TAPE["moves"].append(("probe", pl.pipeline_id, states))
+                            break
+            for pl in s.known:
+                rs = pl.runtime_status()
+                ready = rs.get_ops(ASSIGNABLE_STATES, require_parents_complete=True)
+                if not ready or _next(3) == 0:
+                    continue
+                chosen, have = [], set()
+                for op in rs.get_ops(ASSIGNABLE_STATES):
+                    if all((q in have) or rs.operator_states[q] == OperatorState.COMPLETED for q in op.parents):
+                        chosen.append(op)
+                        have.add(op)
+                chosen = chosen[:1] if not s.multi else chosen[:max(1, min(len(chosen), pr["k"]))]
+                if any(op in a.ops for a in asg for op in chosen):
+                    continue
+                place(chosen, pl, pr["ram"])
+            return sus, asg
         sus, asg = [], []
         sus_pipeline = None
+        # pipelines with a container still being written out (suspended in an earlier round)
+        for p_ in s.executor.pools:
+            for c in p_.active_containers:
+                if any(
+                        o.pipeline.runtime_status().operator_states[o] == OperatorState.SUSPENDING for o in c.operators):
+                    sus_pipeline = c.operators[0].pipeline
         npools = s.executor.num_pools
         free = [[p.avail_cpu_pool, p.avail_ram_pool] for p in s.executor.pools]
         # suspensions (up to two in one round)
@@ -100,11 +161,11 @@ def ensure_registered():
             if not live:
                 break
             p = live[_next(len(live))]
-            mode = _next(11)
+            mode = _next(12)
             if sus_pipeline is not None and _next(2) == 0 and sus_pipeline in live:
                 # work of the pipeline whose container is being suspended in this very round
                 p = sus_pipeline
-                mode = 6 + _next(2)
+                mode = [6, 7, 11, 11][_next(4)]
             rs = p.runtime_status()
             if mode <= 5:          # safe: ready operators, then their descendants in listing (topological) order
                 ready = rs.get_ops(ASSIGNABLE_STATES, require_parents_complete=True)
@@ -131,6 +192,13 @@ def ensure_registered():
                 allops = rs.get_ops(ASSIGNABLE_STATES)
                 ops = list(reversed(allops))[: (1 if not s.multi else 1 + _next(len(allops)))]
                 kind = "reversed"
+            elif mode == 11:       # certainly inadmissible: an assignable operator one of whose parents is not completed
+                cands = [op for op in rs.get_ops(ASSIGNABLE_STATES)
+                         if any(rs.operator_states[q] != OperatorState.COMPLETED for q in op.parents)]
+                if not cands:
+                    continue
+                ops = [cands[_next(len(cands))]]
+                kind = "child_of_unfinished_parent"
             elif mode == 9:        # includes a busy / finished operator
                 allops = list(rs.operator_states.keys())
                 ops = [allops[_next(len(allops))]]
